@@ -34,6 +34,12 @@ type c01Result struct {
 }
 
 // environment of the class the property names: script-constructible values and Go functions over them
+// c01Typed has methods on both receivers; a nil *c01Typed is bound into the environment
+type c01Typed struct{ N int64 }
+
+func (t *c01Typed) Ptr() int64 { return t.N }
+func (t c01Typed) Val() int64  { return t.N }
+
 func c01Env() *env.Env {
 	e := env.NewEnv()
 	h := &hostPool{}
@@ -58,6 +64,14 @@ func c01Env() *env.Env {
 	e.Define("add", func(a, b int64) int64 { return a + b })
 	e.Define("cat", func(xs ...string) string { return strings.Join(xs, "") })
 	e.Define("boom", func() { panic("host function panics") })
+	// nil values of interface types that have methods, the way Go functions hand them out
+	e.Define("nilerr", func() error { return nil })
+	e.Define("nilstr", func() fmt.Stringer { return nil })
+	e.Define("errs", []error{nil, fmt.Errorf("an error")})
+	e.Define("oknil", func() (int64, error) { return 1, nil })
+	var nilT *c01Typed
+	e.Define("nilrecv", nilT)
+	e.Define("nilrecvf", func() *c01Typed { return nil })
 	e.Define("boomv", func(x interface{}) interface{} { panic(fmt.Errorf("host error %v", x)) })
 	// Go functions of many parameter kinds, for the boundary sweep (no conversion may panic)
 	for name, fn := range c01BoundaryFuncs {
@@ -194,6 +208,10 @@ func c01Degenerate() []string {
 
 func c01DegenerateForms() []string {
 	return []string{
+		"nilerr().Error()", "nilstr().String()", "x = nilerr(); x.Error()", "errs[0].Error()", "errs[1].Error()", "nilerr().Error", "x = nilstr(); x.String", "nilerr().Nope", "x = nilerr(); x.y = 1",
+		"a, b = oknil(); b.Error()", "for e in errs { e.Error() }", "[nilerr()][0].Error()", "{\"k\": nilerr()}.k.Error()", "nilerr() == nil", "nilerr() ?? 1", "toString(nilerr())", "nilerr()()",
+		"nilerr()[0]", "len(nilerr())", "nilerr() + 1", "-nilerr()", "*nilerr()", "&nilerr()", "for x in nilerr() { }", "throw nilerr()", "switch nilerr() {\ncase nil: 1\n}", "nilerr() in [nil]",
+		"nilrecv.Ptr()", "nilrecv.Val()", "nilrecv.N", "nilrecv.N = 1", "nilrecvf().Ptr()", "nilrecvf().Val()", "nilrecvf().N", "nilrecv.Nope", "f = nilrecv.Val; f()", "f = nilrecv.Ptr; f()", "*nilrecv", "nilrecv == nil",
 		"var a =", "var a, b =", "x = 1; *x = 2", "f = func(a) { }; f(...)", "f = func(a, b) { }; f(...)", "probe(...)",
 		"a = nilptrs; for x in a { x }", "\"s\" * 9223372036854775807", "\"ab\" * 4611686018427387904", "go boom()", "go boomv(1)",
 		"go func() { boom() }()", "a = 1; make(a.b)", "add([1, 2]...)", "hfix3([1, 2, 3]...)", "cat([\"a\", \"b\"]...)", "add(list...)",
@@ -326,6 +344,24 @@ func c01Main(seed uint64, n int, outDir string, self string) error {
 					progs = append(progs, c01Prog{f + "(1, " + v + ")", "boundary-tail"}, c01Prog{f + "(1, " + v + ", " + v + ")", "boundary-tail"}, c01Prog{"x = " + v + "\n" + f + "(1, x...)", "boundary-tail-spread"})
 				}
 			}
+		}
+	}
+	// every Go number kind a script can make, under every operator against the usual operands, at top level (no call-site
+	// recover stands between a reflect panic and the host there)
+	for _, k := range []string{"uint", "uint8", "uint16", "uint32", "uint64", "int", "int8", "int16", "int32", "float32", "byte"} {
+		mk := "v = func() { a = make([]" + k + ", 1); a[0] = 3; return a[0] }()\n"
+		if k == "byte" {
+			mk = "v = func() { a = make([]byte, 2); a[0] = 200; return a[0] }()\n"
+		}
+		for _, op := range []string{"+", "-", "*", "/", "%", "==", "!=", "<", "<=", ">", ">=", "&", "|", "**", "<<", ">>", "&&", "||"} {
+			for _, o := range []string{"1", "1.5", "\"2\"", "nil", "v", "-1"} {
+				progs = append(progs, c01Prog{mk + "v " + op + " " + o, "number-kinds"}, c01Prog{mk + o + " " + op + " v", "number-kinds"})
+			}
+		}
+		for _, form := range []string{"-v", "!v", "^v", "v++; v", "v--; v", "v += 1; v", "v in [3, 200]", "3 in [v]", "[7, 8, 9, 10][v]", "[7, 8, 9, 10][0:v]", "make([]int64, v)", "\"s\" * v",
+			"switch v {\ncase 3: 1\ncase 200: 2\n}", "switch 3 {\ncase v: 1\n}", "v ? 1 : 2", "for v { break }", "if v { 1 }", "{v: 1}[v]", "\"s\" + v", "v + \"s\"", "toString(v)", "len(v)",
+			"b = make([]" + k + ", 2); b[0] <= b[1]", "for c in make([]" + k + ", 3) { if c > 0 { } }", "make(" + k + ") < 1", "a = make([]" + k + ", 1); a[0] = -1; a[0]", "a = make([]" + k + ", 1); a[0] = 1e30; a[0]"} {
+			progs = append(progs, c01Prog{mk + form, "number-kinds"})
 		}
 	}
 	envNames := []string{"n", "fl", "str", "t", "nothing", "list", "dict", "ints", "strs", "ch", "nilptrs", "pt", "arr", "arrs", "parr", "add", "cat", "boom", "boomv", "mod", "probe", "hvar"}
